@@ -173,6 +173,9 @@ func c09Sample(r *gen.R) *c09Gen {
 	default:
 		g.Kind = "wl"
 		w := genWLCase(r, wlOpts{minWords: 2, maxWords: 6, maxLen: 5, twins: false, uncap: false, noReqSep: r.Bool()})
+		for try := 0; try < 50 && !oracle.PremiseHolds(oracle.Normalize(w.Words)); try++ {
+			w.Words = wlInput(r, 2, 6, false, false) // two entries sharing a title-cased form make the choice record ambiguous
+		}
 		if w.SepKind == "user" {
 			w.SepKind, w.Preset = "preset", "SFDigits1"
 		}
